@@ -10,12 +10,11 @@ export PYTHONPATH=/repo PYTHONHASHSEED=0 PYTHONDONTWRITEBYTECODE=1 NUMBA_CACHE_D
 for t in harness/translators/*.py; do
   [ -e "$t" ] && /venv/bin/python -W ignore "$t" /repo coq/Gen
 done
-cd coq
-coq_makefile -f _CoqProject -o Makefile >/dev/null
-timeout 3000 make -j16
-cd ../ocaml
-timeout 900 make driver
-cd ..
+./tools/build.sh
+for c in ocaml/*_cmds.ml; do
+  p=$(basename $c _cmds.ml)
+  flock .cache/build.lock make -s -C ocaml driver_$p
+done
 # forbidden constructs gate
 if grep -rnE '\b(Admitted|admit|Axiom|Parameter|Conjecture|bypass_check)\b|Unset Guard|type-in-type' coq --include=*.v | grep -v '^\s*(\*' ; then
   echo "forbidden construct found"; exit 1
